@@ -210,6 +210,17 @@ CLAIMED.update({
     ),
 })
 
+CLAIMED.update({
+    'C15': (
+        'proxy symbolic execution (bvx/z3) of BigMapType and the GET/MEM/UPDATE/GET_AND_UPDATE instructions from an arbitrary valid layered state, then of aggregate_lazy_diff',
+        'Bounded symbolic model checking, one inductive step: for every key of a small universe the solver chooses among six situations (absent, on chain, locally set, locally set over '
+        'chain, removed on chain, removed locally), all values are symbolic; after one operation every observation, the representation invariant and the lazy diff applied to the on-chain '
+        'contents are compared with a dictionary model; each diff entry must carry the real script-expression hash of its packed key.',
+        'Key universe of 3 (quick) / 4 (thorough) concrete keys; node shell replaced by a fake holding the on-chain map.',
+        'DESIGN.md C15',
+    ),
+})
+
 NOT_APPLICABLE = {
     'C18': 'Parser is a PLY regex lexer + LALR tables + json; every input is concrete before the code under test runs, '
            'so a solver has nothing to decide (CrossHair regex model also unsound here). See DESIGN.md section 6.',
